@@ -966,6 +966,82 @@ def check_legacy(ctx):
 
 # ======================================================================================= entry
 
+# ===================================================================================== language tags / country codes (LangTag.tla)
+
+def check_langtags(ctx):
+    """every member of the schema's language / script / country enumerations, set through the API and read back three ways"""
+    from lbry.schema.claim import Claim
+    from lbry.schema.types.v2.claim_pb2 import Claim as ClaimMessage, Language as LanguageMessage, Location as LocationMessage
+    langs = sorted(n for n in LanguageMessage.Language.keys() if n != 'UNKNOWN_LANGUAGE')
+    scripts = sorted(n for n in LanguageMessage.Script.keys() if n != 'UNKNOWN_SCRIPT')
+    names = [n for n in LocationMessage.Country.keys() if n != 'UNKNOWN_COUNTRY']
+    regions3 = sorted(n[1:] for n in names if len(n) == 4 and n[0] == 'R' and n[1:].isdigit())
+    countries = sorted(n for n in names if not (len(n) == 4 and n[0] == 'R' and n[1:].isdigit()))
+    if len(langs) < 100 or len(scripts) < 100 or len(countries) < 200 or len(regions3) < 20 or 'en' not in langs or 'Latn' not in scripts:
+        raise MachineryError('the schema enumerations could not be read from the protobuf descriptor')
+    consts = {'LANGS': set(langs), 'SCRIPTS': set(scripts), 'COUNTRIES': set(countries), 'REGIONS3': set(regions3),
+              'PIVOTS': {'en', 'zh'}, 'S0': 'Latn', 'EMIT': True}
+    res = tlc.run('LangTag', tlc.make_cfg(constants=consts, invariants=['RoundTrip'], constraint='Emit'), ctx, workers=1, coverage=False,
+                  timeout=1200, label='LangTag')
+    ctx.add_tlc(res, f'LangTag exhaustive: {len(langs)} languages, {len(scripts)} scripts, {len(countries)} countries, {len(regions3)} UN regions '
+                     '(law RoundTrip, assumptions ShapesDisjoint / StoredInjective + emission)')
+    if res.violated:
+        ctx.violation('model:' + ','.join(res.violated), 'specification law violated in the model', res.error_trace[:4000])
+        return
+    cases = _printed_json(res, 'LANG')
+    if len(cases) != res.distinct:
+        raise MachineryError(f'LangTag emitted {len(cases)} cases but TLC found {res.distinct} distinct states')
+    n = 0
+    for c in cases:
+        n += 1
+        rep = {'family': 'langtag', 'case': c}
+        try:
+            with watchdog(20):
+                claim = Claim()
+                if c['kind'] == 'tag':
+                    claim.stream.languages.append(c['tag'])
+                else:
+                    claim.stream.locations.append({'country': c['country']})
+                data = claim.to_bytes()
+                views = {'typed': claim, 'reparsed': Claim.from_bytes(data)}
+                got = {}
+                for vn, v in views.items():
+                    if c['kind'] == 'tag':
+                        lg = v.stream.languages[0]
+                        got[vn] = {'tag': lg.langtag, 'language': lg.language or '', 'script': lg.script or '', 'region': lg.region or ''}
+                    else:
+                        got[vn] = {'country': v.stream.locations[0].country}
+                m = ClaimMessage()
+                m.ParseFromString(data[1:])
+                if c['kind'] == 'tag':
+                    lm = m.languages[0]
+                    raw = [LanguageMessage.Language.Name(lm.language), LanguageMessage.Script.Name(lm.script), LocationMessage.Country.Name(lm.region)]
+                else:
+                    raw = [LocationMessage.Country.Name(m.locations[0].country)]
+        except Hang as e:
+            ctx.violation('langtag-hangs', str(e), rep)
+            continue
+        except Exception as e:  # pylint: disable=broad-except
+            ctx.violation(f'langtag-set-or-read-raises:{c["kind"]}', f'{type(e).__name__}: {e} on {c}', rep)
+            continue
+        want = {k: c[k] for k in (('tag', 'language', 'script', 'region') if c['kind'] == 'tag' else ('country',))}
+        ctx.count(('lang', json.dumps(want, sort_keys=True)), nontrivial=True)
+        for vn, g in got.items():
+            if g != want:
+                part = next(k for k in want if g[k] != want[k])
+                if c['kind'] == 'tag' and want['region'][:1] == 'R' and g['region'] == want['region'][1:]:
+                    part = 'country-code-starting-with-R-loses-it'
+                ctx.violation(f'langtag-read-back-differs:{part}', f'set {want}, {vn} view reads {g}', dict(rep, view=vn, got=g))
+                break
+        else:
+            if raw != c['raw']:
+                ctx.violation('langtag-protobuf-differs', f'set {want}, plain protobuf parse shows {raw}, specification says {c["raw"]}', dict(rep, raw=raw))
+        if n % 400 == 1:
+            ctx.sample({'set': want, 'typed': got['typed'], 'protobuf': raw})
+    ctx.cov['traces_validated_against_impl'] += len(cases)
+    ctx.leg('B-langtag', cases=len(cases), languages=len(langs), scripts=len(scripts), countries=len(countries), un_regions=len(regions3))
+
+
 def run(ctx):
     t0 = time.time()
     url_jobs = _url_jobs(ctx)
@@ -981,6 +1057,7 @@ def run(ctx):
                                                  workers=2, coverage=False, timeout=3000, label=f'ClaimApi-{w}')) for w in API_WITNESSES]
         # the legacy corpus and the metadata walks are replayed while the URL enumerations are still running
         check_legacy(ctx)
+        check_langtags(ctx)
         check_claims(ctx, f_bfs.result(), [f.result() for f in f_wit], [f.result() for f in f_walk], (bfs_c, wit_c, walk_c))
         check_urls(ctx, [(label, consts, f.result()) for label, consts, f in f_url])
     ctx.cov['exhaustive'] = True
@@ -991,7 +1068,8 @@ def run(ctx):
         'delete of a forbidden or structural symbol of a grammar string; each case is concretised with 2-3 representative spellings (ASCII, BMP incl. '
         'combining marks and the range boundaries U+0020/21, U+D7FF/D800/DFFF/E000, U+FFFD/FFFE, astral). Distinct = distinct class strings of length >= 2. '
         'Metadata: one evaluation = one API call on a real object followed by a complete read-back (typed accessors, plain protobuf parse of to_bytes(), '
-        'from_bytes(to_bytes())) compared with the ClaimApi.tla state; distinct = (walk, step). Legacy: one evaluation per recorded claim / recorded field value.')
+        'from_bytes(to_bytes())) compared with the ClaimApi.tla state; distinct = (walk, step). Language tags: every member of the schema\'s '
+        'language / script / country / UN-region enumerations set through languages.append / locations.append and read back typed, re-parsed and as plain protobuf (LangTag.tla). Legacy: one evaluation per recorded claim / recorded field value.')
     ctx.leg('A', url_invariants=URL_INVS, url_witnesses=URL_WITNESSES, api_invariants=API_INVS, api_action_properties=API_PROPS,
             api_witnesses=API_WITNESSES, api_bfs=bfs_c)
     ctx.leg('timing', total_s=round(time.time() - t0, 1))
